@@ -252,7 +252,7 @@ func TestVerifC19Sched(t *testing.T) {
 	r := ev.Begin("C19", "sched")
 	defer r.End(t)
 	r.Rule = "executions = all interleavings, within the deviation bound, of {Watch with 1-2 scripted notifications then wait for cancel, subscriber A (Subscribe then drain), subscriber B (same), canceller} on the instrumented real Watcher, for 3 scenarios (two notifications, one notification, failing watch; one mask value per scenario because Go map iteration order is not controlled); scheduling points = every mutex, atomic, channel and select operation of watcher.go plus the harness's own channel operations; oracle on the observation log: no panic (double close / send on closed), no hang, channels of subscribers registered before cancellation are closed, every matching notification begun after Subscribe returned is delivered, in order, nothing delivered after close; states = distinct choice prefixes executed; distinct outcomes = distinct observation logs"
-	r.Assumptions = []string{"RWMutex modelled as exclusive", "un-instrumented operations between two scheduling points of a goroutine are atomic"}
+	r.Assumptions = []string{"un-instrumented operations between two scheduling points of a goroutine are atomic"}
 	if r.Replay != nil {
 		var c c19Replay
 		if err := json.Unmarshal(r.Replay, &c); err != nil {
